@@ -22,7 +22,8 @@ META = dict(
     bounds=dict(value='any integer / any real (unbounded); IEEE: any finite value with |x| <= 2^20 (Float16: <= 1000)',
                 bounds='any reals lo < hi', options='1..5', linked_group='<= 3 nodes',
                 fp_widths='quick: Float16, Float32 (30 s per query); thorough adds Float64 (300 s per query)'),
-    outside=['NaN as a value or bound (stored unchanged; not among the values the property quantifies over)',
+    outside=['decode_dv: hand-written templates and 6 (quick) / 30 (thorough) seeded random graphs; per listed design one decode; per path one re-decode with other entries (instance independence)',
+             'NaN as a value or bound (stored unchanged; not among the values the property quantifies over)',
              '"every existing node has a value and the vector reports it" on whole decoded graphs is decided on three '
              'hand-written templates only, with discrete entries bounded to [-3, n+3] (get_graph casts with int() before '
              'clamping) and continuous entries at five concrete probe values',
